@@ -60,7 +60,25 @@ static int do_rootrem_i(int norem, int argc, tok_t *a, out_t *o) {
 static int op_rootrem_i(int c, tok_t *a, out_t *o) { return do_rootrem_i(0, c, a, o); }
 static int op_rootrem_i_norem(int c, tok_t *a, out_t *o) { return do_rootrem_i(1, c, a, o); }
 
+/* mpn_sqrtrem_dc [u] -> [root (nn/2 limbs)] [rem] rn : mpn_sqrtrem on an operand with an EVEN number of limbs and a
+   normalised top limb (>= B/4): the branch that hands {np, nn} to mpn_dc_sqrtrem unshifted (sqrtrem.c:362-368); answered
+   on the Lean side by the limb-level model Mpir.SqrtL (carries c, b, q of mpn_dc_sqrtrem). */
+static int op_sqrtrem_dc(int argc, tok_t *a, out_t *o) {
+  NEED(argc == 1 && a[0].kind == T_VEC && a[0].n >= 2 && a[0].n % 2 == 0 && a[0].d[a[0].n - 1] >= ((mp_limb_t) 1 << 62));
+  long n = a[0].n, tn = n / 2;
+  mp_limb_t *sp = dst_new(tn), *rp = dst_new(n), *np = dst_new(n);
+  memcpy(np, a[0].d, n * sizeof(mp_limb_t));
+  mp_size_t rn = mpn_sqrtrem(sp, rp, np, n);
+  out_vec(o, sp, tn);
+  if (rn < 0 || rn > n) out_err(o, "malformed");
+  else { out_vec(o, rp, rn); out_long(o, rn); }
+  if (memcmp(np, a[0].d, n * sizeof(mp_limb_t))) out_err(o, "srcmod");
+  if (!dst_ok(sp, tn) || !dst_ok(rp, n) || !dst_ok(np, n)) out_err(o, "oob");
+  dst_free(sp); dst_free(rp); dst_free(np); return 0;
+}
+
 const opdef_t ops_rootrem[] = {
+  {"mpn_sqrtrem_dc", op_sqrtrem_dc},
   {"mpn_rootrem_basecase", op_mpn_rootrem_basecase},
   {"mpn_rootrem_i", op_rootrem_i}, {"mpn_rootrem_i_norem", op_rootrem_i_norem},
   {0, 0}
